@@ -56,7 +56,7 @@ func (p *c09prop) CaseCPU(tier string) int {
 	if tier == "thorough" {
 		return 300
 	}
-	return 60
+	return 20
 }
 
 func (p *c09prop) Plan(tier string, seed int64) []core.Segment {
@@ -67,6 +67,7 @@ func (p *c09prop) Plan(tier string, seed int64) []core.Segment {
 	return []core.Segment{
 		{Kind: fmt.Sprintf("exh2:%d", l2), N: exhCount(2, l2), Exhaustive: true},
 		{Kind: fmt.Sprintf("exh3:%d", l3), N: exhCount(3, l3), Exhaustive: true},
+		{Kind: "fixed", N: int64(len(c09fixed))},
 		{Kind: "corpus:family", N: 600},
 		{Kind: "family", N: fam},
 		{Kind: "bstar", N: fam},
@@ -152,10 +153,30 @@ func bstarText(r *rand.Rand, n int) []byte {
 	return b
 }
 
+// c09fixed are directed texts: the minimal witnesses of the repaired
+// trPartialCopy defect (wrong permutation; non-termination) and classic hard
+// inputs.
+var c09fixed = func() [][]byte {
+	w := "af" + "afb" + "afc" + "afdafdafdafd" + "afc" + "afdafdafd" + "afe" + "af"
+	u := "aeaeaeb" + "aaeb" + "aeb" + "aed" + "aebaebaeb"
+	return [][]byte{
+		[]byte(w + w),
+		[]byte(u + u + "aec"),
+		[]byte("mississippi"),
+		[]byte("abracadabra abracadabra"),
+		bytes.Repeat([]byte("ab"), 300),
+		bytes.Repeat([]byte{0}, 1000),
+		{},
+		{0xff},
+	}
+}()
+
 func (p *c09prop) Gen(kind string, idx int64, seed int64, tier string) core.Case {
 	class, arg := splitKind(kind)
 	var sc SfxCase
 	switch {
+	case kind == "fixed":
+		sc = SfxCase{Text: c09fixed[idx], Family: "fixed"}
 	case class == "exh2":
 		sc = SfxCase{Text: exhText(2, idx), Family: "exh2"}
 	case class == "exh3":
